@@ -46,6 +46,7 @@ the rules see:
   S24 generator loops     `for x in (E(c) for c in it): S`  ->  `for c in it: x = E(c) ; S`
   S25 decided tests       inside `if isinstance(x, T):` a nested test `isinstance(x, T)` is true (false in the `else`), x not re-bound
   S26 flag variables      `if c: A; flag = True else: B; flag = False` ; REST(flag)  ->  REST moves into both branches
+  S28 star calls          `a, b, c = E` ; `f(a, b, c)`  ->  `f(*E)`   (a, b, c used nowhere else)
   S12 literal loops       `for x in (a, b): S(x)`  ->  `S(a)` ; `S(b)`   (at most four simple elements, no
                           `break`, `continue` only as leading guards, x not used afterwards)
 
@@ -590,7 +591,7 @@ def _effects_before(e: ast.AST, name: str) -> bool:
             walk(c)
             if found:
                 return
-        if isinstance(n, (ast.Call, ast.Await)):
+        if isinstance(n, ast.Await) or (isinstance(n, ast.Call) and not (isinstance(n.func, ast.Name) and n.func.id in _PURE_CALLS)):
             seen_effect = True
 
     walk(e)
@@ -813,6 +814,11 @@ class Canon:
             # S25 a test that an enclosing `if` has already decided
             if self._propagate(s):
                 return [s], 0
+            #     ... and after a guard `if T: <jump>` the rest of the block runs with T false
+            if not s.orelse and jumps(s.body) and rest:
+                shell = ast.If(test=s.test, body=[ast.Pass()], orelse=list(rest))
+                if self._propagate(shell):
+                    return [s] + [x for x in shell.orelse if not isinstance(x, ast.Pass)], len(rest)
             # S8 `if any(...): J`
             r = self._if_any(s)
             if r is not None:
@@ -1401,8 +1407,31 @@ class Canon:
             return True
         return False
 
+    def _star_call(self, fn: ast.AST, facts: NameFacts) -> bool:
+        """S28: `a, b, c = E` ; `... f(a, b, c) ...`  ->  `... f(*E) ...`  (names used nowhere else)."""
+        for blk in _blocks(fn):
+            for i, s in enumerate(blk[:-1]):
+                if not (isinstance(s, ast.Assign) and len(s.targets) == 1 and isinstance(s.targets[0], ast.Tuple) and len(s.targets[0].elts) >= 2
+                        and all(isinstance(x, ast.Name) for x in s.targets[0].elts) and not isinstance(s.value, (ast.Tuple, ast.List))):
+                    continue
+                names = [x.id for x in s.targets[0].elts]  # type: ignore[attr-defined]
+                if any(facts.stores.get(n, 0) != 1 or facts.loads.get(n, 0) != 1 or n in facts.special or n in facts.nested_refs for n in names):
+                    continue
+                nxt = blk[i + 1]
+                for h in _head_exprs(nxt):
+                    for c in [n for n in ast.walk(h) if isinstance(n, ast.Call)]:
+                        if [a.id if isinstance(a, ast.Name) else None for a in c.args] == names and not c.keywords:
+                            if _unconditional_loads(h, names[0]) != 1 or _effects_before(h, names[0]):
+                                continue
+                            c.args = [_loc(ast.Starred(value=s.value, ctx=ast.Load()), s)]
+                            del blk[i]
+                            return True
+        return False
+
     def _one_let(self, fn: ast.AST, body: List[ast.stmt], facts: NameFacts) -> bool:
         if self._split_rebinding(fn, facts):
+            return True
+        if self._star_call(fn, facts):
             return True
         if self._split_scopes(fn, facts):
             return True
